@@ -161,6 +161,23 @@ check('C14',
       'machine-checked proof in Coq of a verified effect analyser run on IR regenerated from source (T3) + dynamic byte-snapshot run',
       'DESIGN.md 5 C14')
 
+check('C07',
+      'Coq theorems (Props/C07.v, through Flocq) about a BIT-EXACT binary64 model (kernel floats) of day_frac, from_angles and the '
+      '__array_ufunc__ branches: two_sum is error-free for all finite doubles below 2^1000; the floor built from + - compare is the '
+      'mathematical floor of every finite double; construction from one or two (also unnormalised) doubles with |sum| <= 2^52 gives an '
+      'integer-valued count plus fraction within 2^-53 of the exact sum; Phase + Phase and Phase - Phase are within 2^-52 of the exact '
+      'result for counts up to 2^51 - 1, negation within 2^-53, results normalised to |frac| <= 1/2 + 2^-50; the add / subtract / negate '
+      'branches of the model reduce to exactly these functions; the imaginary-flag and sign rules of from_angles are complex '
+      'multiplication and division (i*i = -1). PARTIAL: multiplication / division by dimensionless numbers, |frac| <= 1/2 exactly at ties, '
+      'abs, floor-division / remainder / divmod, trig-on-fraction and "never decays to a single double" for each operand kind are decided by '
+      'the correspondence run (every case evaluated by vm_compute on the model and compared BIT FOR BIT with the implementation) and by the '
+      'exact-rational monitor (|result - exact| <= 2^-52, normalised, type Phase) on every run.',
+      'Trusted: Coq kernel, stdlib FloatAxioms (kernel binary64 = IEEE 754) + real-number axioms through Flocq; astropy two_sum / '
+      'two_product / split as transcribed (bit-exact on every case); np.floor = floor. Known finding D21 (Phase divisor in //, %, divmod '
+      'raises RecursionError). Bare-number divisors of // and % raise by astropy unit convention (not sampled).',
+      'machine-checked proof in Coq (Flocq) about a bit-exact binary64 model + bit-for-bit correspondence run (vm_compute) + exact-rational monitor',
+      'DESIGN.md 5 C07')
+
 ALL = [f'C{i:02d}' for i in range(1, 21)]
 
 def main():
